@@ -1117,11 +1117,15 @@ func mergeProbe(r *rng, ctxDir string, t *tTree, texts map[string]string) any {
 				m[ref] = []byte(texts[ref])
 			}
 			root := ctxDir
-			switch r.intn(12) {
+			switch r.intn(14) {
 			case 0:
 				root = ctxDir + "-elsewhere"
 			case 1:
 				root = ""
+			case 2, 3:
+				root = "ctx" // the probe runs in the parent directory: another spelling of ctxDir
+			case 4:
+				root = ctxDir + "/"
 			}
 			if r.chance(1, 6) {
 				for k := range m {
@@ -1141,18 +1145,26 @@ func mergeProbe(r *rng, ctxDir string, t *tTree, texts map[string]string) any {
 			pc[i], pr[i] = caches[j], real[j]
 		}
 		res := map[string]any{}
-		merged, err := loadfile.MergeFileCaches(pr...)
-		if err != nil {
-			res["err"] = classifyAPIErr("parse", err)
-		} else {
-			d := map[string]string{}
-			for k, v := range merged.Contents() {
-				d[k] = digest(v)
+		absOf := map[string]string{}
+		_ = withCwd(filepath.Dir(ctxDir), func() {
+			for _, c := range pc {
+				if !c.Nil {
+					absOf[c.Root], _ = filepath.Abs(c.Root)
+				}
 			}
-			res["root"] = merged.RootDir()
-			res["files"] = d
-		}
-		probes = append(probes, map[string]any{"caches": pc, "result": res})
+			merged, err := loadfile.MergeFileCaches(pr...)
+			if err != nil {
+				res["err"] = classifyAPIErr("parse", err)
+			} else {
+				d := map[string]string{}
+				for k, v := range merged.Contents() {
+					d[k] = digest(v)
+				}
+				res["root"] = merged.RootDir()
+				res["files"] = d
+			}
+		})
+		probes = append(probes, map[string]any{"caches": pc, "abs": absOf, "result": res})
 	}
 	return probes
 }
